@@ -79,6 +79,16 @@ def compare(ctx, schema, corpus, text, case_extra, rng, dirpath, tag=""):
     res.evaluations += 1
     shutil.rmtree(dirpath, ignore_errors=True)
     main = layout.write(dirpath)
+    linked = rng.random() < 0.15
+    if linked:
+        # the outer file really lives elsewhere; references in it are
+        # relative to the URL it was *named* by (the link), not to where
+        # the link points
+        real = os.path.join(dirpath, "elsewhere", "deep")
+        os.makedirs(real)
+        os.rename(main, os.path.join(real, "real-main.conf"))
+        os.symlink(os.path.join(real, "real-main.conf"), main)
+        res.count("compared_via_symlink")
     o_in = outcome.load_text(schema, text)
     o_cut = load_path(schema, main)
     res.count("compared")
